@@ -1,5 +1,6 @@
 import Pyunicorn.Model.Proto
 import Pyunicorn.Model.Events
+import Pyunicorn.Generated.StructC16
 /-! Line-protocol driver for C16: one request per line on stdin, one answer per line. -/
 open Pyunicorn Pyunicorn.Proto Pyunicorn.Events
 
@@ -44,6 +45,10 @@ def symm? : String → Option Symm
   | "max" => some .max
   | "min" => some .min
   | _ => none
+
+def symmStr : Symm → String
+  | .directed => "directed" | .symmetric => "symmetric" | .antisym => "antisym"
+  | .mean => "mean" | .max => "max" | .min => "min"
 
 def answer (toks : List String) : String :=
   match toks with
@@ -97,6 +102,39 @@ def answer (toks : List String) : String :=
       | .error .valueError => "raise:ValueError"
       | .error .ioError => "raise:OSError"
       | .ok M => showBoolMat M
+  -- round 3: exact float32 values of the rates
+  | ["ecaf32", ts1, bx, ts2, by_, tm, lag] =>
+      match ecaSeries (rats ts1) (bools bx) (rats ts2) (bools by_) (ratD tm) (ratD lag) with
+      | none => "raise"
+      | some o =>
+        let o := o.f32
+        join [showRate o.prec12, showRate o.trig12, showRate o.prec21, showRate o.trig21]
+  | ["ecaratef32", w, ts1, bx, ts2, by_, tm, lag] =>
+      match window? w with
+      | none => "bad-request"
+      | some w =>
+        match ecaRateSeries w (rats ts1) (bools bx) (rats ts2) (bools by_) (ratD tm) (ratD lag) with
+        | none => "raise"
+        | some (a, b) => join [showRate (rateF32 a), showRate (rateF32 b)]
+  | ["ecamatf32", w, ts, e, n, tm, lag, s] =>
+      match window? w, symm? s with
+      | some w, some s =>
+        match ecaAnalysisF32 w (rats ts) (boolMat e) n.toNat! (ratD tm) (ratD lag) s with
+        | none => "raise"
+        | some M => showMat showOptRat M
+      | _, _ => "bad-request"
+  -- round 3: a history of ES requests on one object; every returned array is read at the
+  -- END of the history (the helper table is the one generated from the source)
+  | ["eshist", ts, e, n, tm, lag, hist] =>
+      let n := n.toNat!
+      let reqs := (splitTok hist ",").filterMap symm?
+      let hp : Symm → SymHelper := fun s =>
+        (Pyunicorn.Generated.StructC16.symmOptions.lookup (symmStr s)).getD ⟨.arg, false, true⟩
+      let compute := esMatrix (rats ts) (boolMat e) n (optRat tm) (ratD lag)
+      let r := runHistory compute (esApply n) hp ⟨[], none⟩ reqs
+      join (r.2.map fun a => match r.1.heap[a]? with
+        | some M => showMat showESEntry M
+        | none => "unallocated") "|"
   | _ => "bad-request"
 
 def main : IO Unit := runDriver answer
